@@ -1,6 +1,7 @@
 """Check infrastructure: obligations, violations, evidence, known findings."""
 from __future__ import annotations
 
+import ast
 import hashlib
 import json
 import os
@@ -140,14 +141,49 @@ def wellformed(repo: Repo, rep: "Report", only_touched: bool = False) -> None:
         m = repo.modules.get(rel) if hasattr(repo, "modules") else None
         if m is None:
             continue
+        cache_ = getattr(repo, "_wf_cache", None)
+        if cache_ is None:
+            cache_ = repo._wf_cache = {}
+        if rel in cache_:
+            und, bad, unb, una = cache_[rel]
+            rep.ob(rid, f"{rel}::<module>", f"{rel}: names resolve, locals assigned on every path to their reads, attributes defined, cell indices in range",
+                   not und and not bad and not unb and not una, _wf_detail(und, bad, unb, una))
+            continue
         und = W.undefined_names(m.src, rel)
         bad = W.bad_cell_indices(m.src)
         unb = W.possibly_unbound(m.src)
-        rep.ob(rid, f"{rel}::<module>", f"{rel}: names resolve, locals assigned on every path to their reads, cell indices in range", not und and not bad and not unb,
-               "; ".join([f"line {ln}: local `{nm}` of {fn_}() is read on a path on which no assignment to it has run (UnboundLocalError; the repository's own "
-                          f"type-check configuration, pyright strict, rejects possibly-unbound locals)" for ln, nm, fn_ in unb] + [f"line {ln}: `{nm}` is loaded in {sc}() but bound in no enclosing scope, not at module level and not a builtin "
-                          f"(NameError when reached: the assignment that defined it is gone)" for ln, nm, sc in und] +
-                         [f"line {ln}: one-element cell `{c}` indexed with {i} (IndexError when reached)" for ln, c, i in bad]))
+        cls_ = {f"{n_.name}@{n_.lineno}": n_ for n_ in ast.walk(m.tree) if isinstance(n_, ast.ClassDef)}
+        owner_ = getattr(repo, "_class_owner", None)
+        if owner_ is None:
+            owner_ = {}
+            for mm in repo.modules.values():
+                for n_ in ast.walk(mm.tree):
+                    if isinstance(n_, ast.ClassDef):
+                        owner_[id(n_)] = mm
+            repo._class_owner = owner_
+
+        def _resolve(k, b):
+            mm = owner_.get(id(k))
+            try:
+                t = repo.resolve_expr(mm.fn_at(k), b.value if isinstance(b, ast.Subscript) else b) if mm is not None else None
+            except Exception:  # noqa: BLE001
+                t = None
+            return t.node if t is not None and getattr(t, "is_class", False) else None
+        una = W.undefined_attributes(cls_, _resolve) if cls_ else []
+        cache_[rel] = (und, bad, unb, una)
+        rep.ob(rid, f"{rel}::<module>", f"{rel}: names resolve, locals assigned on every path to their reads, attributes defined, cell indices in range",
+               not und and not bad and not unb and not una, _wf_detail(und, bad, unb, una))
+
+
+def _wf_detail(und, bad, unb, una) -> str:
+    return "; ".join(
+        [f"line {ln}: `self.{a}` is read in class {c.split('@')[0]} but neither the class nor any of its bases assigns or defines it "
+         f"(AttributeError when reached: the assignment in __init__ is gone)" for ln, c, a in una] +
+        [f"line {ln}: local `{nm}` of {fn_}() is read on a path on which no assignment to it has run (UnboundLocalError; the repository's own "
+         f"type-check configuration, pyright strict, rejects possibly-unbound locals)" for ln, nm, fn_ in unb] +
+        [f"line {ln}: `{nm}` is loaded in {sc}() but bound in no enclosing scope, not at module level and not a builtin "
+         f"(NameError when reached: the assignment that defined it is gone)" for ln, nm, sc in und] +
+        [f"line {ln}: one-element cell `{c}` indexed with {i} (IndexError when reached)" for ln, c, i in bad])
 
 
 def load_known() -> List[Dict[str, Any]]:
